@@ -1,91 +1,156 @@
 ------------------------------ MODULE Pipeline ------------------------------
 (***************************************************************************)
-(* The run as a whole (umbrella spec; serves C20, binds C12/C19).          *)
+(* The run as a whole (umbrella spec; serves C20, binds C12 / C19 / C10).  *)
 (*                                                                         *)
-(* Files are discovered, parsed one by one in sorted order (ParseOk /      *)
-(* ParseFail), the registered units are correlated in dependency order,    *)
-(* pruned, named (first come, first served - Names.tla) and written.       *)
-(* A file is either valid, or corrupt in one of two ways:                  *)
+(* One action per stage step of ford.main:                                 *)
+(*   ParseOk / ParseFail     Project.__init__: the discovered files, one   *)
+(*                           by one in sorted order; a file whose parse    *)
+(*                           raises is not registered                      *)
+(*   StartCorrelate          Project.correlate is entered                  *)
+(*   Correlate(u)            top-level units in the order                  *)
+(*                             modules and submodules by dependency level  *)
+(*                             (toposort: level = longest chain of module  *)
+(*                             dependencies below it), sorted inside a     *)
+(*                             level; then top-level procedures, programs, *)
+(*                             block data in list order                    *)
+(*   StartPrune / Prune(u)   after every unit has been correlated, in the  *)
+(*                           same order                                    *)
+(*   Name(e)                 NameSelector.get_name, first call per entity: *)
+(*                           first come, first served, numbered per        *)
+(*                           (directory, stem)                             *)
+(*   StartMarkdown, StartRender                                            *)
+(*   Wipe                    Documentation.writeout removes the output     *)
+(*                           directory                                     *)
+(*   Write(p)                one page file                                 *)
+(*   Finish                                                                *)
+(* A file is valid, or corrupt in one of two ways:                         *)
 (*    "raises"   the parser raises: nothing of the file is registered      *)
 (*    "reports"  the parser reports an error through print_error           *)
 (* With default settings (dbg = true) print_error only prints:             *)
 (*    Dev "ReportContinues": a file of kind "reports" is registered with   *)
 (*    whatever was parsed of it and takes part in naming and linking.      *)
-(* C20: Observable(valid + corrupt) restricted to the valid files equals   *)
-(* Observable(valid).                                                      *)
+(* C20: the names (page URLs) of the entities of the valid files are those *)
+(* of the run without the corrupt files (Containment).                     *)
 (***************************************************************************)
 EXTENDS Naturals, Sequences, FiniteSets, TLC
 
 CONSTANTS Files,      \* file ids 1..n (numeric order = parse order)
           Kind,       \* file -> "valid" | "raises" | "reports"
-          NameOf,     \* file -> name of the page-bearing entity it defines
-          UsesOf,     \* file -> set of files whose module it USEs
+          Units,      \* top-level program units
+          FileOf,     \* unit -> file
+          Class,      \* unit -> 0 module / submodule, 1 top-level procedure, 2 program, 3 block data
+          UsesOf,     \* unit -> units it depends on (USE anywhere inside it; parent of a submodule)
+          Rank,       \* unit -> position inside its class (modules: sorted by identifier; others: list order)
+          Ents,       \* entities that get a page name
+          EFile,      \* entity -> file
+          EKey,       \* entity -> <<directory, stem>>
+          NameRank,   \* entity -> position in the order of first get_name calls
+          Pages,      \* page files
+          PFile,      \* page -> file of the entity it documents, 0 for project-level pages
           Dev
 
-VARIABLES phase, todo, registered, failed, correlated, stems, written
-vars == <<phase, todo, registered, failed, correlated, stems, written>>
+VARIABLES phase, todo, registered, failed, correlated, pruned, stems, wiped, written
+vars == <<phase, todo, registered, failed, correlated, pruned, stems, wiped, written>>
 
 Valid == {f \in Files : Kind[f] = "valid"}
+Min(S) == CHOOSE x \in S : \A y \in S : x <= y
+Max(S) == CHOOSE x \in S : \A y \in S : x >= y
+Range(s) == {s[i] : i \in 1..Len(s)}
 
 Init == /\ phase = "parse" /\ todo = Files /\ registered = {} /\ failed = {}
-        /\ correlated = <<>> /\ stems = << >> /\ written = {}
+        /\ correlated = <<>> /\ pruned = <<>> /\ stems = << >> /\ wiped = FALSE /\ written = {}
 
-Min(S) == CHOOSE x \in S : \A y \in S : x <= y
-
+(* ---- parsing ---------------------------------------------------------------- *)
 ParseOk ==
   /\ phase = "parse" /\ todo # {}
   /\ LET f == Min(todo) IN
      /\ Kind[f] = "valid" \/ (Kind[f] = "reports" /\ "ReportContinues" \in Dev)
      /\ registered' = registered \cup {f} /\ todo' = todo \ {f}
      /\ failed' = IF Kind[f] = "reports" THEN failed \cup {f} ELSE failed     \* still reported
-  /\ UNCHANGED <<phase, correlated, stems, written>>
+  /\ UNCHANGED <<phase, correlated, pruned, stems, wiped, written>>
 
 ParseFail ==
   /\ phase = "parse" /\ todo # {}
   /\ LET f == Min(todo) IN
      /\ Kind[f] = "raises" \/ (Kind[f] = "reports" /\ "ReportContinues" \notin Dev)
      /\ failed' = failed \cup {f} /\ todo' = todo \ {f}
-  /\ UNCHANGED <<phase, registered, correlated, stems, written>>
+  /\ UNCHANGED <<phase, registered, correlated, pruned, stems, wiped, written>>
+
+(* ---- correlation order ------------------------------------------------------- *)
+RegUnitsOf(reg) == {u \in Units : FileOf[u] \in reg}
+RegUnits == RegUnitsOf(registered)
+IsMod(u) == Class[u] = 0
+ModDepsIn(u, reg) == {d \in UsesOf[u] : d \in RegUnitsOf(reg) /\ IsMod(d)} \ {u}
+ModDeps(u) == ModDepsIn(u, registered)
+RECURSIVE LevelIn(_, _)
+LevelIn(u, reg) == IF ~IsMod(u) \/ ModDepsIn(u, reg) = {} THEN 0 ELSE 1 + Max({LevelIn(d, reg) : d \in ModDepsIn(u, reg)})
+Level(u) == LevelIn(u, registered)
+KeyLess(a, b) == \/ Class[a] < Class[b]
+                 \/ Class[a] = Class[b] /\ Level(a) < Level(b)
+                 \/ Class[a] = Class[b] /\ Level(a) = Level(b) /\ Rank[a] < Rank[b]
+NextUnit(done) == CHOOSE u \in RegUnits \ done : \A v \in (RegUnits \ done) \ {u} : KeyLess(u, v)
 
 StartCorrelate == /\ phase = "parse" /\ todo = {} /\ phase' = "correlate"
-                  /\ UNCHANGED <<todo, registered, failed, correlated, stems, written>>
+                  /\ UNCHANGED <<todo, registered, failed, correlated, pruned, stems, wiped, written>>
+Correlate(u) ==
+  /\ phase = "correlate" /\ u \in RegUnits \ Range(correlated)
+  /\ u = NextUnit(Range(correlated))
+  /\ correlated' = Append(correlated, u)
+  /\ UNCHANGED <<phase, todo, registered, failed, pruned, stems, wiped, written>>
+StartPrune == /\ phase = "correlate" /\ Range(correlated) = RegUnits /\ phase' = "prune"
+              /\ UNCHANGED <<todo, registered, failed, correlated, pruned, stems, wiped, written>>
+Prune(u) ==
+  /\ phase = "prune" /\ u \in RegUnits \ Range(pruned)
+  /\ u = NextUnit(Range(pruned))
+  /\ pruned' = Append(pruned, u)
+  /\ UNCHANGED <<phase, todo, registered, failed, correlated, stems, wiped, written>>
+StartMarkdown == /\ phase = "prune" /\ Range(pruned) = RegUnits /\ phase' = "markdown"
+                 /\ UNCHANGED <<todo, registered, failed, correlated, pruned, stems, wiped, written>>
+StartRender == /\ phase = "markdown" /\ phase' = "render"
+               /\ UNCHANGED <<todo, registered, failed, correlated, pruned, stems, wiped, written>>
 
-Done(f) == \E i \in 1..Len(correlated) : correlated[i] = f
-Correlate(f) ==
-  /\ phase = "correlate" /\ f \in registered /\ ~Done(f)
-  /\ \A g \in UsesOf[f] \cap registered : Done(g)            \* dependencies first
-  /\ f = Min({h \in registered : ~Done(h) /\ \A g \in UsesOf[h] \cap registered : Done(g)})   \* sorted toposort
-  /\ correlated' = Append(correlated, f)
-  /\ LET n == Cardinality({g \in DOMAIN stems : NameOf[g] = NameOf[f]}) + 1
-     IN stems' = stems @@ (f :> <<NameOf[f], n>>)
-  /\ UNCHANGED <<phase, todo, registered, failed, written>>
+(* ---- naming: first come, first served ------------------------------------------- *)
+RegEnts == {e \in Ents : EFile[e] \in registered}
+Name(e) ==
+  /\ phase \notin {"parse", "done"}
+  /\ e \in RegEnts \ DOMAIN stems
+  /\ \A x \in (RegEnts \ DOMAIN stems) \ {e} : NameRank[e] < NameRank[x]
+  /\ LET n == Cardinality({x \in DOMAIN stems : stems[x].key = EKey[e]}) + 1
+     IN stems' = stems @@ (e :> [key |-> EKey[e], n |-> n])
+  /\ UNCHANGED <<phase, todo, registered, failed, correlated, pruned, wiped, written>>
 
-StartWrite == /\ phase = "correlate" /\ \A f \in registered : Done(f) /\ phase' = "write"
-              /\ UNCHANGED <<todo, registered, failed, correlated, stems, written>>
-Write(f) == /\ phase = "write" /\ f \in registered \ written /\ written' = written \cup {f}
-            /\ UNCHANGED <<phase, todo, registered, failed, correlated, stems>>
-Finish == /\ phase = "write" /\ written = registered /\ phase' = "done"
-          /\ UNCHANGED <<todo, registered, failed, correlated, stems, written>>
+(* ---- writing ------------------------------------------------------------------------ *)
+Wipe == /\ phase = "render" /\ phase' = "write" /\ wiped' = TRUE
+        /\ UNCHANGED <<todo, registered, failed, correlated, pruned, stems, written>>
+Writable == {p \in Pages : PFile[p] = 0 \/ PFile[p] \in registered}
+Write(p) == /\ phase = "write" /\ wiped /\ p \in Writable \ written /\ written' = written \cup {p}
+            /\ UNCHANGED <<phase, todo, registered, failed, correlated, pruned, stems, wiped>>
+Finish == /\ phase = "write" /\ written = Writable /\ RegEnts \subseteq DOMAIN stems /\ phase' = "done"
+          /\ UNCHANGED <<todo, registered, failed, correlated, pruned, stems, wiped, written>>
 
-Next == ParseOk \/ ParseFail \/ StartCorrelate \/ (\E f \in Files : Correlate(f)) \/ StartWrite \/ (\E f \in Files : Write(f)) \/ Finish
+Next == \/ ParseOk \/ ParseFail \/ StartCorrelate \/ (\E u \in Units : Correlate(u)) \/ StartPrune \/ (\E u \in Units : Prune(u))
+        \/ StartMarkdown \/ StartRender \/ (\E e \in Ents : Name(e)) \/ Wipe \/ (\E p \in Pages : Write(p)) \/ Finish
 Spec == Init /\ [][Next]_vars /\ WF_vars(Next)
 
 (* ---- reference: the run without the corrupt files --------------------------- *)
-RECURSIVE RefNumber(_, _, _)
-RefNumber(S, done, acc) ==      \* valid files in the deterministic correlate order (dependencies first, then by id)
+RECURSIVE RefNumber(_, _)
+RefNumber(S, acc) ==      \* entities of the valid files in the order of their first naming
   IF S = {} THEN acc
-  ELSE LET ready == {f \in S : UsesOf[f] \cap Valid \subseteq done}
-           f == Min(IF ready = {} THEN S ELSE ready)
-           n == Cardinality({g \in DOMAIN acc : NameOf[g] = NameOf[f]}) + 1
-       IN RefNumber(S \ {f}, done \cup {f}, acc @@ (f :> <<NameOf[f], n>>))
-RefStems == RefNumber(Valid, {}, << >>)
+  ELSE LET e == CHOOSE x \in S : \A y \in S \ {x} : NameRank[x] < NameRank[y]
+           n == Cardinality({g \in DOMAIN acc : acc[g].key = EKey[e]}) + 1
+       IN RefNumber(S \ {e}, acc @@ (e :> [key |-> EKey[e], n |-> n]))
+RefStems == RefNumber({e \in Ents : EFile[e] \in Valid}, << >>)
 
 (* ---- properties ------------------------------------------------------------- *)
-CorrelateAfterDeps == \A i \in 1..Len(correlated) : \A g \in UsesOf[correlated[i]] \cap registered :
+CorrelateAfterDeps == \A i \in 1..Len(correlated) : \A g \in ModDeps(correlated[i]) :
                          \E j \in 1..(i - 1) : correlated[j] = g
+PruneAfterCorrelate == pruned # <<>> => Range(correlated) = RegUnits
 NoRegistrationOfFailedFile == \A f \in registered : Kind[f] = "valid"
 EveryCorruptFileReported == (phase # "parse") => \A f \in Files : Kind[f] # "valid" => f \in failed
-Containment == (phase = "done") => \A f \in Valid : f \in DOMAIN stems /\ stems[f] = RefStems[f]
-WriteOnlyRegistered == written \subseteq registered
+Containment == (phase = "done") => \A e \in Ents : EFile[e] \in Valid => (e \in DOMAIN stems /\ stems[e] = RefStems[e])
+NamesInjective == \A a, b \in DOMAIN stems : a # b => stems[a] # stems[b]
+WriteOnlyRegistered == \A p \in written : PFile[p] = 0 \/ PFile[p] \in registered
+WriteAfterWipe == written # {} => wiped
+NothingBeforeParseEnds == (phase = "parse") => (correlated = <<>> /\ stems = << >> /\ written = {})
 Terminates == <>(phase = "done")
 =============================================================================
